@@ -45,6 +45,8 @@ pub fn run_next_op(registers: &mut Registers, mem: *mut MemoryAreas) -> Option<(
   let (next_op, length, cycles) = decode(code_slice);
   let should_break = next_op.is_block_end();
   let status = run_op(next_op, registers, mem, length as u32);
+  // the program counter is a 16-bit register
+  registers.ip &= 0xffff;
   registers.cycles += (cycles / 4) as u32;
 
   return Some((status, should_break));
